@@ -293,8 +293,11 @@ def r18_3(ctx: Ctx, E: Effects, rule="R18.3"):
     okc = False
     if lst:
         lv = lst[0][1]["V_l"]
-        pos = pfind4(cp.node, "%s += list(self.position)" % lv)
-        vel = pfind4(cp.node, "if self.velocity is not None:\n    %s += list(self.velocity)" % lv)
+        pos = [(s_, {}) for s_ in walk_no_nested(cp.node) if isinstance(s_, ast.AugAssign) and norm(s_.target) == lv
+               and isinstance(s_.op, ast.Add) and "self.position" in norm(s_.value) and not guards_of(s_, parents_map(cp.node))]
+        vel = [(n_, {}) for n_ in walk_no_nested(cp.node) if isinstance(n_, ast.If) and norm(n_.test) == "self.velocity is not None"
+               and not n_.orelse and len(n_.body) == 1 and isinstance(n_.body[0], ast.AugAssign) and norm(n_.body[0].target) == lv
+               and isinstance(n_.body[0].op, ast.Add) and "self.velocity" in norm(n_.body[0].value)]
         ctor = pfind4(cp.node, "return AtomGro(%s)" % lv)
         okc = bool(pos) and bool(vel) and bool(ctor) and pos[0][0].lineno < vel[0][0].lineno < ctor[0][0].lineno
         ctx.ob(rule, cp, "record handed to the constructor", okc,
